@@ -3,6 +3,7 @@
 from __future__ import annotations
 
 import ast
+import re
 
 from ..astq import attr_stores, body_walk, dotted, src, walk_local, norm_stmt, fn_calls
 from ..cfg import CFG
@@ -234,6 +235,35 @@ def r7_ipc_lock_ownership(chk: Check):
                 if is_token_lock:
                     chk.require(f.key == "tokens:CounterToken.__init__", chk.fkey(f, "locks token.lock"),
                                 f"`{src(c)}` in `{f.qual}` creates another lock object on the token's lock file; it must only be locked through the token's own ipc_lock under its thread lock", chk.loc(f.module, c))
+    # the locked file is never opened by the class itself: closing *any* descriptor of a file drops the process's POSIX lock on it
+    for cls_qual in ("CounterToken",):
+        init = tree.func("tokens", cls_qual + ".__init__")
+        amap = {}
+        for st in ast.walk(init.node):
+            if isinstance(st, ast.Assign) and len(st.targets) == 1 and src(st.targets[0]).startswith("self."):
+                amap[src(st.targets[0])] = src(st.value)
+
+        def resolve(t, amap=amap):
+            for _ in range(3):
+                for k, v in amap.items():
+                    t = re.sub(re.escape(k) + r"(?![A-Za-z0-9_])", v, t)
+            return t.replace("self.path", "path")
+
+        lockpaths = [resolve(src(c.args[0])) for c in fn_calls(init.node) if "InterProcessLock" in (dotted(c.func) or "") and c.args]
+        chk.min_instances(len(lockpaths), 1, "inter-process lock of the token")
+        for f in tree.nontest_funcs():
+            if f.module.name != "tokens" or f.cls is None or f.cls.qual != cls_qual:
+                continue
+            for c in fn_calls(f.node):
+                opened = None
+                if tail(c) in ("write_text", "read_text", "write_bytes", "read_bytes", "open", "touch") and isinstance(c.func, ast.Attribute):
+                    opened = resolve(src(c.func.value))
+                elif (dotted(c.func) or "") in ("open", "io.open", "os.open") and c.args:
+                    opened = resolve(src(c.args[0]))
+                if opened is not None:
+                    chk.require(opened not in lockpaths, chk.fkey(f, "opens the locked file"),
+                                f"`{src(c)[:70]}` in `{f.qual}` opens the file the inter-process lock is taken on ({opened}): closing that descriptor releases the POSIX lock, "
+                                "so two processes can be inside the acquire critical section at once", chk.loc(f.module, c))
     uses = []
     for f in tree.nontest_funcs():
         if f.module.name != "tokens":
